@@ -187,3 +187,51 @@ class IntervalStatesPb(PbRoundTrip):
 
     invoke = WholeFile.invoke
     post = WholeFile.post
+
+
+for _fmt in ("PROTOBUF", "XML"):
+
+    @register
+    class WriterArguments(PbRoundTrip):
+        prop = "C02" if _fmt == "PROTOBUF" else "C01"
+        target = "commonroad.common.file_writer.CommonRoadFileWriter.__init__"
+        case = "%s: author, affiliation, source, tags and location given to the writer" % _fmt
+        fmt = _fmt
+        summaries = ("make_valid_orientation", "float_to_str")
+        describe = "meta data passed to the writer (not the scenario's own) is what the file carries"
+
+        def build(self, F):
+            from commonroad.scenario.scenario import GeoTransformation, Location, Scenario, ScenarioID, Tag
+            from contracts.c01 import positive
+
+            sc = F.new(Scenario, positive(F, "dt"), F.new(ScenarioID), "scenario author", {Tag.URBAN}, "scenario affiliation", "scenario source", F.new(Location))
+            bare = F.new(Scenario, positive(F, "dt2"))
+            loc = F.new(Location, 123, F.real("lat"), F.real("lon"))
+            return {"sc": sc, "bare": bare, "loc": loc, "pps": F.new(PlanningProblemSet), "args": []}
+
+        def invoke(self, F, inp):
+            import os
+
+            from commonroad.scenario.scenario import Tag
+            from pyvc.contract import scratch_dir
+
+            fmt = FileFormat[self.fmt]
+            out = []
+            for k, sc in enumerate((inp["sc"], inp["bare"])):
+                path = os.path.join(scratch_dir("c02w_"), "w%d%s" % (k, fmt.value)) if F.native else "/nonexistent-dir/c02_writer_args_%d%s" % (k, fmt.value)
+                w = F.new(CommonRoadFileWriter, sc, inp["pps"], "writer author", "writer affiliation", "writer source", {Tag.HIGHWAY, Tag.COMFORT}, inp["loc"], file_format=fmt)
+                F.method(w, "write_to_file", path, OverwriteExistingFile.ALWAYS)
+                out.append(F.items(F.method(F.new(CommonRoadFileReader, path), "open"))[0])
+            return out
+
+        def post(self, F, inp, out):
+            from commonroad.scenario.scenario import Tag
+
+            yield ("writing and reading raise nothing (also for a scenario that has no meta data of its own)", out.exc is None)
+            if out.exc is None:
+                tol = 0 if self.fmt == "PROTOBUF" else z3.Q(1, 10 ** 4)
+                for k, sc2 in enumerate(out.value):
+                    yield ("file %d carries the writer's author, affiliation and source" % k, (F.attr(sc2, "author"), F.attr(sc2, "affiliation"), F.attr(sc2, "source")) ==
+                           ("writer author", "writer affiliation", "writer source"))
+                    yield ("file %d carries the writer's tags" % k, set(F.keys(F.attr(sc2, "tags"))) == {Tag.HIGHWAY, Tag.COMFORT})
+                    yield ("file %d carries the writer's location" % k,) + approx_parts(inp["loc"], F.attr(sc2, "location"), tol, F, path="location")
